@@ -61,17 +61,19 @@ theorem alloc_seq_abs_partial (cfg₁ cfg₂ : Cfg) (reqs : List Req) :
   induction reqs with
   | nil =>
     intro bases₁ bases₂ a₁ a₂ a₁' a₂' h₁ h₂ _ _ habs _ _ hr₁ hr₂
-    cases bases₁ <;> cases bases₂ <;> simp only [runAllocs, Except.ok.injEq] at hr₁ hr₂ <;> subst hr₁ <;> subst hr₂ <;>
-      exact ⟨habs, h₁, h₂⟩
+    rw [runAllocs_nil] at hr₁ hr₂
+    simp only [Except.ok.injEq] at hr₁ hr₂
+    subst hr₁; subst hr₂
+    exact ⟨habs, h₁, h₂⟩
   | cons q qs ih =>
     intro bases₁ bases₂ a₁ a₂ a₁' a₂' h₁ h₂ hi₁ hi₂ habs had₁ had₂ hr₁ hr₂
     cases bases₁ with
-    | nil => simp [runAllocs] at hr₁
+    | nil => rw [runAllocs_short] at hr₁; cases hr₁
     | cons nb₁ nbs₁ =>
       cases bases₂ with
-      | nil => simp [runAllocs] at hr₂
+      | nil => rw [runAllocs_short] at hr₂; cases hr₂
       | cons nb₂ nbs₂ =>
-        simp only [runAllocs] at hr₁ hr₂
+        rw [runAllocs_cons] at hr₁ hr₂
         obtain ⟨hf₁, hz₁, hn₁⟩ := had₁
         obtain ⟨hf₂, hz₂, hn₂⟩ := had₂
         cases e₁ : allocMem cfg₁ nb₁ a₁ q.b q.zero q.fill with
